@@ -303,7 +303,7 @@ func c02Units(tier string) []*Unit {
 			us = append(us, &Unit{Name: sc.Name, Sc: sc, Bound: bound, Prune: true, Check: both(c02Check(pg), c01Check(pg)), Weight: len(pg.Tasks)})
 		}
 	}
-	us = append(us, c02ExternalProcessUnit(), c02LoopScopeUnit(), c02IncludedCalleeUnit(), c02IncludedOnceCalleesUnit())
+	us = append(us, c02ExternalProcessUnit(), c02LoopScopeUnit(), c02RefInLoopUnit(), c02IncludedCalleeUnit(), c02IncludedOnceCalleesUnit())
 	return us
 }
 
@@ -468,4 +468,29 @@ func c02IncludedOnceCalleesUnit() *Unit {
 	}}
 	sc := &vlab.Scenario{Name: "once-callees-in-include-same-last-segment/cinf", Files: files, Spec: pg, Calls: []vlab.CallSpec{{Task: "main", Vars: [][2]string{{"VP", "@"}}}}}
 	return &Unit{Name: sc.Name, Sc: sc, Bound: 0, Prune: false, Weight: 1, Check: c02Check(pg)}
+}
+
+// Call variables given as references ({ref: .ITEM}) inside a for loop (cmds and deps, list and
+// matrix): the callee sees the loop's item, as it does for the template form '{{.ITEM}}'.
+func c02RefInLoopUnit() *Unit {
+	tf := "version: '3'\ntasks:\n  main:\n    deps:\n      - for: [d]\n        task: callee\n        vars: {X: {ref: .ITEM}, W: dep}\n    cmds:\n" +
+		"      - for: [a, b]\n        task: callee\n        vars: {X: {ref: .ITEM}, W: list}\n" +
+		"      - for: {matrix: {K: [p, q]}}\n        task: callee\n        vars: {X: {ref: .ITEM.K}, W: matrix}\n" +
+		"      - for: [t]\n        task: callee\n        vars: {X: '{{.ITEM}}', W: template}\n" +
+		"  callee:\n    cmds:\n      - printf '%s\\n' 'P|callee|0|=|{{.W}}:X={{.X}}'\n"
+	sc := &vlab.Scenario{Name: "call-vars-by-reference-to-the-loop-item/cinf", Files: map[string]string{"Taskfile.yml": tf}, Calls: []vlab.CallSpec{{Task: "main"}}}
+	want := []string{"dep:X=d", "list:X=a", "list:X=b", "matrix:X=p", "matrix:X=q", "template:X=t"}
+	return &Unit{Name: sc.Name, Sc: sc, Bound: 0, Prune: false, Weight: 1, Check: func(x *vlab.Exec) []vlab.Violation {
+		out := generic("C02", x)
+		var got []string
+		for _, e := range vlab.ParseTrace(x.Trace) {
+			if e.K == 'S' && e.Task == "callee" {
+				got = append(got, e.Extra)
+			}
+		}
+		if x.Code != 0 || strings.Join(got, "|") != strings.Join(want, "|") {
+			out = append(out, vlab.V("C02", "call_vars", "ref_to_loop_item", fmt.Sprintf("the callee ran with %q (status %d %s), expected %q", got, x.Code, firstN(x.ErrStr, 100), want)))
+		}
+		return out
+	}}
 }
